@@ -333,19 +333,23 @@ def short_lived_case(max_n):
 
 def cases(tier, seed):
     ormgen.harness_dao()  # generated once here (parent process) from the current tree; workers inherit it
-    n = 2 if tier == "quick" else 3
-    nseq = 5 if tier == "quick" else 7
     cs = []
-    for with_vecs in (False, True):
-        for sub0 in (0, 1):
-            for parent0, single0 in [(a, b) for a in range(n + 1) for b in range(3)]:
-                fixed = {"sub0": sub0, "parent0": parent0, "single0": single0}
-                if tier == "quick":
-                    # quick: the class of the second target rotates with the case (thorough explores every combination)
-                    fixed["leafclass1"] = (parent0 + single0 + sub0) % 4
-                nm = "graph|%s|node0=%s,parent0=%d,ref0=%d" % ("alt-mapped Vec targets" if with_vecs else "Leaf/SubLeaf/SubSubLeaf targets", ["Node", "SubNode"][sub0], parent0 - 1, single0 - 1)
-                cs.append(Case(nm + "|n=%d" % n, graph_case(n, with_vecs, fixed, nseq), key=nm, validate=1, timeout=900 if tier == "quick" else 3000,
-                               max_paths=200000 if tier == "quick" else 3000000))
+    # quick: 2 nodes, the class of the second target rotates with the case. thorough: 2 nodes with every combination of target
+    # classes and all 7 collection shapes ("wide"), and 3 nodes with the rotation and the 2 shortest collection shapes ("deep");
+    # 3 nodes with everything free is 3.2 million paths per case and ran into every budget (measured)
+    plans = [(2, 5, True)] if tier == "quick" else [(2, 7, False), (3, 2, True)]
+    for n, nseq, rotate in plans:
+        for with_vecs in (False, True):
+            for sub0 in (0, 1):
+                for parent0, single0 in [(a, b) for a in range(n + 1) for b in range(3)]:
+                    fixed = {"sub0": sub0, "parent0": parent0, "single0": single0}
+                    if rotate:
+                        fixed["leafclass1"] = (parent0 + single0 + sub0) % 4
+                    nm = "graph|%s|node0=%s,parent0=%d,ref0=%d" % ("alt-mapped Vec targets" if with_vecs else "Leaf/SubLeaf/SubSubLeaf targets", ["Node", "SubNode"][sub0], parent0 - 1, single0 - 1)
+                    if tier != "quick":
+                        nm += "|deep" if n == 3 else "|wide"
+                    cs.append(Case(nm + "|n=%d" % n, graph_case(n, with_vecs, fixed, nseq), key=nm, validate=1, timeout=900 if tier == "quick" else 3000,
+                                   max_paths=200000 if tier == "quick" else 3000000))
     cs.append(Case("rich scalars", rich_case(), validate=2, timeout=600))
     cs.append(Case("two roots, one conversion state", two_roots_case(), validate=2))
     cs.append(Case("alternatively mapped container and its normally mapped subclasses", bag_case(), key="bag", validate=2, timeout=900))
@@ -364,7 +368,7 @@ def describe(tier):
         "shared state; an alternatively mapped container (relationship exposed under another name than the constructor argument) / a normally mapped subclass of it "
         "(one and two levels below, with relationships of their own) whose elements are also referenced from its holder; an alternatively mapped subclass of a normally mapped class behind base-typed fields; helper objects built on the fly by an alternative mapping and short-lived roots converted with one state. Shape = bounded symbolic choices, scalar fields = unbounded z3 integers; oracle = bisimulation with identity classes (same classes, sharing, "
         "order, None positions) + equality of all scalar fields decided by the solver. non-trivial = every path converts a graph" % n,
-        bounds=dict(nodes=n, pool=2, collection_length="<= %d" % (2 if tier == "quick" else 3), scalars="unbounded integers; enum/datetime/str/float/bool/list-of-str from small pools"),
+        bounds=dict(nodes=n if tier == "quick" else "2 with every target class and all collection shapes; 3 with the quick tier's rotation of target classes and the 2 shortest collection shapes", pool=2, collection_length="<= %d" % (2 if tier == "quick" else 3), scalars="unbounded integers; enum/datetime/str/float/bool/list-of-str from small pools"),
         outside=["graphs with more than %d nodes" % n, "custom TypeDecorator columns", "self-referential collections (the generator rejects them, see C06)"],
         assumptions=["SQLAlchemy instrumented attributes store and return symbolic integers untouched (validated by the native re-run on seeded values every run)"],
     )
